@@ -143,6 +143,9 @@ func newEventFromUntrustedJSONV2(eventJSON []byte, roomVersion IRoomVersion) (PD
 	if err := roomVersion.CheckCanonicalJSON(eventJSON); err != nil {
 		return nil, BadJSONError{err}
 	}
+	if err := checkNoDuplicateKeys(eventJSON); err != nil {
+		return nil, BadJSONError{err}
+	}
 
 	res := &eventV2{}
 	var err error
